@@ -48,6 +48,13 @@ def family(tier):
         '(-n)*(-m)': sym.Product((X.neg(n), X.neg(m))), '(-n)*(-2)*(-3)*(-1)': sym.Product((X.neg(n), X.neg(L(2)), X.neg(L(3)), X.neg(L(1)))),
         '6*n': sym.Product((L(6), n)), '-(n*m*k)': X.neg(sym.Product((n, m, k3))),
     })
+    # quotients nested in the numerator / denominator of quotients and inside sums (denominator bookkeeping of the simplifier)
+    base.update({
+        '(n/2)/2': sym.Quotient(sym.Quotient(n, L(2)), L(2)), 'n/4': sym.Quotient(n, L(4)),
+        '(n/m)/2': sym.Quotient(sym.Quotient(n, m), L(2)), '(n/2+m)/2': sym.Quotient(sym.Sum((sym.Quotient(n, L(2)), m)), L(2)),
+        'n/(2*m)': sym.Quotient(n, sym.Product((L(2), m))), 'n/(m/2)': sym.Quotient(n, sym.Quotient(m, L(2))),
+        '(n/m)/k': sym.Quotient(sym.Quotient(n, m), k3),
+    })
     if tier == 'thorough':
         k = X.V('k', X.INT_T)
         base.update({
@@ -118,6 +125,18 @@ def replay_rec(rec):
                             f"{ {k: v for k, v in m.items() if k in rec['e1'] + rec['e2']} } the operands are {v1} and {v2}")
 
 
+def rational_verdict(rec):
+    """'unsat' if no rational valuation (|v| <= BOUND, denominators non-zero) contradicts the answer"""
+    sem = Sem('real', int_mode='asreal')
+    env = {v: sem.int_var(v, BOUND) for v in ('n', 'm', 'k')}
+    try:
+        t1, t2 = ExprEnc(sem, env).enc(FAM[rec['e1']]), ExprEnc(sem, env).enc(FAM[rec['e2']])
+    except (NotEncoded, TypeError):
+        return 'notenc'
+    truth = sem.cmp(OPS[rec['op']][1], t1, t2)
+    return check(sem.ranges + sem.defined + [truth != z3.BoolVal(rec['answer'])], 10000)[0]
+
+
 def classify(rec):
     """signature: operator class x whether the (simplified) difference is a constant.  eq/ne on a non-constant
     difference is the documented-by-use 'structural inequality' guess."""
@@ -128,7 +147,11 @@ def classify(rec):
     if rec['op'] in ('eq', 'ne') and not const:
         return 'symbolic_op:eq-ne-guess-on-undecidable-difference'
     if hasdiv:
-        return f"symbolic_op:{'eq-ne' if rec['op'] in ('eq', 'ne') else 'order'}:integer-division-simplified-as-rational"
+        # root-cause discriminator (second solver query): the 'simplified as rational' finding covers only answers that are
+        # right when INTEGER division is read as exact rational division; an answer that is wrong there too is something else
+        rat = rational_verdict(rec)
+        tail = 'integer-division-simplified-as-rational' if rat == 'unsat' else f'division:wrong-over-rationals-too({rat})'
+        return f"symbolic_op:{'eq-ne' if rec['op'] in ('eq', 'ne') else 'order'}:{tail}"
     return f"symbolic_op:{'eq-ne' if rec['op'] in ('eq', 'ne') else 'order'}:{'constant' if const else 'nonconstant'}-difference"
 
 
@@ -138,7 +161,7 @@ def run(tier, seed):
     FAM = family(tier)
     NAMES = list(FAM)
     ctx.rule = (f'all ordered pairs of {len(NAMES)} integer expression trees over n,m (offsets, scalings, products, powers, '
-                'quotients, minus prefixes) x 6 operators; the real symbolic_op is called; each Boolean answer yields one z3 '
+                'quotients incl. nested ones, minus prefixes) x 6 operators; the real symbolic_op is called; each Boolean answer yields one z3 '
                 'query for a contradicting valuation; non-trivial = symbolic_op returned a Boolean')
     ctx.functions = ['loki.expression.symbolic.symbolic_op', 'is_minus_prefix', 'strip_minus_prefix', 'simplify (as called by symbolic_op)']
     ctx.bounds = {'vars': f'|n|,|m|,|k| <= {BOUND}', 'outside': 'non-integer operands, overflow'}
